@@ -719,7 +719,7 @@ fn gen_len(rng: &mut Rng, big_ok: bool) -> usize {
         6..=10 => rng.below(6000) as usize,
         11..=13 => (*rng.pick(EDGES) as i64 + rng.range(-2, 2)).max(0) as usize,
         14..=16 => rng.below(70_000) as usize,
-        17 | 18 => if big_ok { rng.below(400_000) as usize } else { rng.below(40_000) as usize },
+        17 | 18 => if big_ok { rng.below(250_000) as usize } else { rng.below(40_000) as usize },
         _ => if big_ok { rng.below(140_000) as usize } else { rng.below(70_000) as usize },
     }
 }
